@@ -1,4 +1,4 @@
-(* GENERATED on every run by harness/props/c20.py from /tmp/seed_C20_3 - do not edit *)
+(* GENERATED on every run by harness/props/c20.py from /repo - do not edit *)
 From Coq Require Import List String.
 Import ListNotations.
 Open Scope string_scope.
